@@ -32,8 +32,10 @@ def digestStore (tag : String) (d : DS) (s : Store Nat Nat Nat) : String :=
 def digest (d : DS) : String :=
   digestStore "P" d d.st.primary ++ " " ++ digestStore "C" d d.st.cache
 
+/-- number of rows (users + signed records) the cache holds -/
 def cacheUsers (d : DS) : Nat :=
-  ((sortedU d.seenU).filter fun u => (d.st.cache.users u).isSome).length
+  ((sortedU d.seenU).filter fun u => (d.st.cache.users u).isSome).length +
+  ((sortedS d.seenS).filter fun k => (d.st.cache.signed k).isSome).length
 
 /-- statement list of the synchronisation in the current state -/
 def stepsOf (d : DS) : List (Step Nat Nat Nat) := expand syncShape d.st.rowsU d.st.rowsS
